@@ -26,7 +26,7 @@ import (
 type gcSub struct {
 	Name        string
 	Topic       string
-	Behav       string // ack | nack1 | nack2 | mutate | slow | neverack | republish:<topic> | peek | stall2 (stalls 900 ms on its second message)
+	Behav       string // ack | nack1 | nack2 | mutate | slow | neverack | republish:<topic> | peek | stall2 (stalls 1600 ms on its second message)
 	Phase       int    // 0 before the publishers, 1 concurrently with them, 2 after they finished
 	CancelAfter int    // cancel the subscription context after that many receipts (0 = never)
 	CancelAt    int    // or in phase: 1 concurrently with the publishers, 2 after them (0 = never)
@@ -291,7 +291,7 @@ func (x *gcRunner) consume(s gcSub, ch <-chan *message.Message, cnt *int32, canc
 		case s.Behav == "slow":
 			time.Sleep(2 * time.Millisecond)
 		case s.Behav == "stall2" && n == 2:
-			time.Sleep(900 * time.Millisecond)
+			time.Sleep(1600 * time.Millisecond)
 		}
 		if s.Behav == "mutate" {
 			msg.Metadata.Set("k", "edited-by-"+s.Name)
@@ -313,7 +313,7 @@ func (x *gcRunner) consume(s gcSub, ch <-chan *message.Message, cnt *int32, canc
 		mctx := msg.Context()
 		leakBound := 3 * time.Second
 		if s.Behav == "stall2" {
-			leakBound = 400 * time.Millisecond // (the next message is held for 900 ms: the context has to end because of the Ack, not because of later deliveries)
+			leakBound = 800 * time.Millisecond // (the next message is held for 1600 ms: the context has to end because of the Ack, not because of later deliveries)
 		}
 		x.leakWg.Add(1)
 		go func() {
